@@ -185,6 +185,15 @@ impl<'a, 'd> Gen<'a, 'd> {
 
     /// an item name: in hostile mode from the pool (unique, gates respected), else `default`
     fn item_name(&mut self, pool: &[(&str, &str)], default: String) -> String {
+        // scoping bias: a function spelled like the locals, so that locals shadow it
+        if self.cfg.focus == Focus::Scopes && std::ptr::eq(pool.as_ptr(), HOSTILE_FNS.as_ptr()) && self.d.chance(100) {
+            let n = LOCAL_NAMES[self.d.below(3)];
+            if !self.used_names.contains(n) {
+                self.used_names.insert(n.to_string());
+                self.label("shadow:fn-named-like-local");
+                return n.to_string();
+            }
+        }
         // a name built around a word the back end treats specially (`domain`, `is_main`,
         // `init0`, `mapx`, `println_`): none of these is reserved, all must simply work
         if self.cfg.hostile_names && self.d.chance(50) {
@@ -261,13 +270,19 @@ impl<'a, 'd> Gen<'a, 'd> {
             } else {
                 None
             };
-            // a local that is spelled like an already declared function would capture the
-            // calls of that function which the model renders by name
-            if let Some(h) = hostile.filter(|h| !self.used_names.contains(*h)) {
+            if let Some(h) = hostile {
                 self.label("names:hostile-local");
+                if self.used_names.contains(h) {
+                    // from here on the function of that name cannot be named (fn_nameable)
+                    self.label("shadow:local-over-fn");
+                }
                 h.to_string()
             } else {
-                LOCAL_NAMES[self.d.below(n)].to_string()
+                let l = LOCAL_NAMES[self.d.below(n)];
+                if self.used_names.contains(l) {
+                    self.label("shadow:local-over-fn");
+                }
+                l.to_string()
             }
         } else {
             self.uniq += 1;
@@ -290,6 +305,13 @@ impl<'a, 'd> Gen<'a, 'd> {
         self.uniq += 1;
         let s = format!("{}{}", prefix, self.uniq);
         self.new_var_named(s, ty, true)
+    }
+
+    /// a top-level function can be named here: no visible local has its spelling
+    /// (a local closure called like a function must win over the function)
+    fn fn_nameable(&self, f: usize) -> bool {
+        let n = &self.p.fns[f].name;
+        n.is_empty() || !self.scope.iter().any(|v| &self.p.vars[v.id as usize].spelling == n)
     }
 
     /// variables that a use of their spelling would actually refer to
@@ -926,6 +948,7 @@ impl<'a, 'd> Gen<'a, 'd> {
             .filter(|f| {
                 let d = &self.p.fns[*f];
                 d.tparams == 0
+                    && self.fn_nameable(*f)
                     && !self.closure_ret_fns.contains(f)
                     && &d.ret == r
                     && d.params.len() == ps.len()
@@ -974,6 +997,7 @@ impl<'a, 'd> Gen<'a, 'd> {
             .filter(|f| {
                 let d = &self.p.fns[*f];
                 d.tparams == 0
+                    && self.fn_nameable(*f)
                     && &d.ret == r
                     && d.params.len() == ps.len()
                     && d.params.iter().zip(ps).all(|((_, a), b)| a == b)
@@ -1019,6 +1043,9 @@ impl<'a, 'd> Gen<'a, 'd> {
     fn fn_calls(&mut self, t: &Ty, fuel: i32) -> Option<Expr> {
         let mut cands: Vec<(usize, Vec<Option<Ty>>)> = vec![];
         for f in self.callable.clone() {
+            if !self.fn_nameable(f) {
+                continue;
+            }
             let d = &self.p.fns[f];
             let mut b = vec![None; d.tparams as usize];
             if match_ty(&d.ret, t, &mut b) {
@@ -1591,7 +1618,7 @@ impl<'a, 'd> Gen<'a, 'd> {
     fn let_fn_call(&mut self, fuel: i32) -> Option<Vec<Stmt>> {
         // every generated function (also those that are only called from here:
         // closure-returning, phantom-result and polymorphically recursive ones)
-        let cands: Vec<usize> = self.user_fns.clone();
+        let cands: Vec<usize> = self.user_fns.iter().copied().filter(|f| self.fn_nameable(*f)).collect();
         if cands.is_empty() {
             return None;
         }
